@@ -21,9 +21,9 @@ pub fn gen(seed: u64, tier: Tier, k: u64) -> Value {
     if (tier == Tier::Quick && k == 5) || (tier == Tier::Thorough && k % 300 == 5) {
         // a long history through the deduplicating adder: 70000 distinct contents, then repeats of early and late ones
         let n = 70_000usize;
-        let mut items: Vec<Item> = (0..n).map(|_| Item { len: 8, ent: Ent::High, hint: Hint::Yes, src: Src::Mem, dup_of: None }).collect();
+        let mut items: Vec<Item> = (0..n).map(|_| Item { len: 8, ent: Ent::High, hint: Hint::Yes, src: Src::Mem, dup_of: None, cat_of: None }).collect();
         for j in [0usize, 1, 100, 4095, 65_535, 65_536, n - 1] {
-            items.push(Item { len: 8, ent: Ent::High, hint: *rng.pick(&Hint::ALL), src: Src::Mem, dup_of: Some(j) });
+            items.push(Item { len: 8, ent: Ent::High, hint: *rng.pick(&Hint::ALL), src: Src::Mem, dup_of: Some(j), cat_of: None });
         }
         let case = ContentCase { seed: rng.next(), comp: Comp::Zstd(1), cached: true, items };
         let mut v = case.to_json();
@@ -48,7 +48,7 @@ pub fn gen(seed: u64, tier: Tier, k: u64) -> Value {
             3 => rng.range(10_000, 200_000) as usize,
             _ => rng.range(300, 9000) as usize,
         };
-        let mut it = Item { len, ent: *rng.pick(&Ent::ALL), hint: *rng.pick(&Hint::ALL), src: if rng.chance(1, 5) { Src::File } else { Src::Mem }, dup_of: None };
+        let mut it = Item { len, ent: *rng.pick(&Ent::ALL), hint: *rng.pick(&Hint::ALL), src: if rng.chance(1, 5) { Src::File } else { Src::Mem }, dup_of: None, cat_of: None };
         // duplicates at distance, possibly with another hint
         if i >= 2 && rng.chance(1, 4) {
             let j = rng.usize_below(i);
@@ -64,7 +64,7 @@ pub fn gen(seed: u64, tier: Tier, k: u64) -> Value {
         // force a cluster close on the compressed side between two uses of the same content
         // (both sides of the 4 MiB switch of the deduplicating adder: below it hashes a buffered copy, above it streams)
         let big_len = if k % 18 == 4 { 3 * 1024 * 1024 } else { 4 * 1024 * 1024 + 4096 };
-        let big = Item { len: big_len, ent: Ent::Low4, hint: Hint::Yes, src: if k % 4 == 0 { Src::File } else { Src::Mem }, dup_of: None };
+        let big = Item { len: big_len, ent: Ent::Low4, hint: Hint::Yes, src: if k % 4 == 0 { Src::File } else { Src::Mem }, dup_of: None, cat_of: None };
         items.insert(1, big.clone());
         let mut b2 = big.clone();
         b2.ent = Ent::Mid6;
@@ -81,6 +81,22 @@ pub fn gen(seed: u64, tier: Tier, k: u64) -> Value {
         again.dup_of = Some(1);
         again.hint = Hint::Detect;
         items.push(again);
+        // a content whose bytes are the big one followed by its successor in the history: it is NOT a duplicate of anything
+        if items[2].cat_of.is_none() {
+            let l = items[1].len + items[2].len;
+            items.push(Item { len: l, ent: Ent::Low4, hint: Hint::Yes, src: Src::Mem, dup_of: None, cat_of: Some((1, 2)) });
+        }
+    }
+    if k % 4 == 1 && items.len() >= 3 {
+        // concatenations of two consecutive earlier contents: distinct byte strings, distinct addresses
+        for _ in 0..2 {
+            let a = rng.below(items.len() as u64 - 1) as usize;
+            if items[a].cat_of.is_some() || items[a + 1].cat_of.is_some() || items[a].len + items[a + 1].len == 0 {
+                continue;
+            }
+            let l = items[a].len + items[a + 1].len;
+            items.push(Item { len: l, ent: items[a].ent, hint: *rng.pick(&Hint::ALL), src: Src::Mem, dup_of: None, cat_of: Some((a, a + 1)) });
+        }
     }
     let case = ContentCase { seed: rng.next(), comp, cached, items };
     let mut v = case.to_json();
@@ -191,6 +207,17 @@ pub fn run(desc: &Value, ctx: &Ctx) -> CaseOut {
                 );
             } else if clusters.get(rec.cluster as usize).map(|c| c.plain.is_none()).unwrap_or(true) {
                 out.violate(json!({"kind": "not-decodable", "profile": profile()}), format!("C16: item {i}: cluster {} is not decodable with {}", rec.cluster, case.comp.name()), json!({}));
+            } else if pack.content_bytes(cid).as_deref() != Some(&bytes[..]) {
+                // "stored in a cluster compressed with the pack's algorithm": what the independent decoder gets out of that
+                // cluster at this blob's offsets is the content
+                let got = pack.content_bytes(cid);
+                out.violate(
+                    json!({"kind": "compressed-not-stored", "profile": profile()}),
+                    format!("C16: item {i} ({} bytes, hint yes): blob {} of compressed cluster {} decodes to {} instead of the content", it.len, rec.blob, rec.cluster, got.map(|g| format!("{} other bytes", g.len())).unwrap_or("nothing".into())),
+                    json!({"len": it.len}),
+                );
+            } else {
+                out.obs.inc("compressed_blob_checks");
             }
         } else {
             // Detect: recorded, not judged
